@@ -61,6 +61,14 @@ class Counter(object):
         self.walker = walker
         for nt, fn in list(walker.functions.items()):
             walker.functions[nt] = self._wrap(fn)
+        # expansions: every pop of an unexpanded stack entry goes through _push_with_children_to_stack
+        self.exps = exps = []
+        orig = walker._push_with_children_to_stack
+
+        def wp(formula, *a, **k):
+            exps.append(formula)
+            return orig(formula, *a, **k)
+        walker._push_with_children_to_stack = wp
 
     def _wrap(self, fn):
         calls = self.calls
@@ -144,11 +152,12 @@ def run(ck):
     evs = []
     eid = [0]
 
-    def walk_event(walker_name, f, order_idx, kids, calls, K=1, order=True, full=True, res="ok"):
+    def walk_event(walker_name, f, order_idx, kids, calls, K=1, order=True, full=True, res="ok", exps=None):
         _nodes, idx = order_idx
         known = [idx[c] for c in calls if c in idx]
         ev = {"id": eid[0], "kind": "walk", "walker": walker_name, "kids": kids, "root": idx[f], "calls": known,
-              "K": K, "order": order, "full": full, "res": res, "foreign": len(calls) - len(known)}
+              "K": K, "order": order, "full": full, "res": res, "foreign": len(calls) - len(known),
+              "chk_exp": exps is not None, "exps": [idx[c] for c in (exps or []) if c in idx]}
         eid[0] += 1
         ck.count()
         evs.append(ev)
@@ -183,7 +192,7 @@ def run(ck):
                 fn()
             except Exception as ex:
                 res = type(ex).__name__
-            walk_event(wname, f, oi, kids, cnt.calls, res=res)
+            walk_event(wname, f, oi, kids, cnt.calls, res=res, exps=cnt.exps)
         for measure in range(6):
             # get_size() installs the measure's callbacks first (set_walking_measure) and then walks:
             # do the same two steps so that the installed table can be wrapped in between
@@ -194,13 +203,13 @@ def run(ck):
                 env.sizeo.walk(f, measure=measure)
             except Exception as ex:
                 res = type(ex).__name__
-            walk_event("size_oracle_m%d" % measure, f, oi, kids, cnt.calls, res=res)
+            walk_event("size_oracle_m%d" % measure, f, oi, kids, cnt.calls, res=res, exps=cnt.exps)
         # identity walker (normalizer of the same env) and DAG printer
         from pysmt.walkers import IdentityDagWalker
         idw = IdentityDagWalker(env)
         cnt = Counter(idw)
         idw.walk(f)
-        walk_event("identity_dag_walker", f, oi, kids, cnt.calls)
+        walk_event("identity_dag_walker", f, oi, kids, cnt.calls, exps=cnt.exps)
         buf = io.StringIO()
         pr = SmtDagPrinter(buf)
         cnt = Counter(pr)
@@ -210,6 +219,21 @@ def run(ck):
         except Exception as ex:
             res = type(ex).__name__
         walk_event("smtlib_dag_printer", f, oi, kids, cnt.calls, res=res)
+        if not f.get_type().is_bool_type():
+            # the same DAG below a theory atom: the Boolean-level walkers store None for theory terms
+            g = env.formula_manager.Equals(f, fams[name][0](len(shape) + 1))
+            order_g, idx_g, kids_g = real_dag(g)
+            for wname, walker, fn in (("atoms_oracle/atom", env.ao, lambda: g.get_atoms()),
+                                      ("prenex/atom", rw.PrenexNormalizer(env), None),
+                                      ("quantifier_oracle/atom", env.qfo, lambda: env.qfo.is_qf(g)),
+                                      ("theory_oracle/atom", env.theoryo, lambda: get_logic(g, env))):
+                cnt = Counter(walker)
+                res = "ok"
+                try:
+                    fn() if fn else walker.normalize(g)
+                except Exception as ex:
+                    res = type(ex).__name__
+                walk_event(wname, g, (order_g, idx_g), kids_g, cnt.calls, res=res, full=False, order=False, exps=cnt.exps)
         if name.startswith("bool"):
             for wname, mk, fn in (("nnf", lambda: rw.NNFizer(env), lambda w: w.convert(f)),
                                   ("aig", lambda: rw.AIGer(env), lambda w: w.convert(f)),
@@ -224,7 +248,8 @@ def run(ck):
                 # these walkers also visit negations they create on the fly: per-object bound, linear total
                 distinct = len(set(cnt.calls))
                 evs.append({"id": eid[0], "kind": "scale", "op": wname, "nodes": len(order), "callbacks": len(cnt.calls),
-                            "K": 2, "slack": 2, "res": res if distinct == len(cnt.calls) else "node_visited_twice"})
+                            "K": 2, "slack": 2, "res": res if distinct == len(cnt.calls) else "node_visited_twice",
+                            "exp": len(cnt.exps), "edges": sum(len(k) for k in kids)})
                 eid[0] += 1
                 ck.count()
         if name in ("int", "real_times"):
@@ -243,8 +268,9 @@ def run(ck):
     depth_diamond = 60
     old_limit = sys.getrecursionlimit()
 
-    def scale_event(op, nodes, callbacks, res, K=1, slack=8):
-        evs.append({"id": eid[0], "kind": "scale", "op": op, "nodes": nodes, "callbacks": callbacks, "K": K, "slack": slack, "res": res})
+    def scale_event(op, nodes, callbacks, res, K=1, slack=8, exp=0, edges=0):
+        evs.append({"id": eid[0], "kind": "scale", "op": op, "nodes": nodes, "callbacks": callbacks, "K": K, "slack": slack, "res": res,
+                    "exp": exp, "edges": edges})
         eid[0] += 1
         ck.count()
         ck.nontrivial(("scale", op))
@@ -275,6 +301,7 @@ def run(ck):
                 continue
             order, idx, kids = real_dag(f)
             n = len(order)
+            n_edges = sum(len(k) for k in kids)
             scale_event("construct:" + label, n, len(c_stc.calls), res, K=1, slack=8)
             runs = [("simplify", env.simplifier, lambda: f.simplify(), 1),
                     ("substitute", env.substituter, lambda: f.substitute({order[0]: order[0]}), 1),
@@ -289,7 +316,20 @@ def run(ck):
             for opn, walker, fn, K in runs:
                 cnt = Counter(walker)
                 res = timed(fn)
-                scale_event("%s:%s" % (opn, label), n, len(cnt.calls) if res == "ok" else 0, res, K=K, slack=8)
+                scale_event("%s:%s" % (opn, label), n, len(cnt.calls) if res == "ok" else 0, res, K=K, slack=8,
+                            exp=len(cnt.exps) if res == "ok" else 0, edges=n_edges)
+            if not f.get_type().is_bool_type():
+                # the same DAG below a theory atom, through the Boolean-level walkers
+                g = env.formula_manager.Equals(f, leaf(1))
+                for opn, mk, fn in (("atoms", lambda: env.ao, lambda w: g.get_atoms()),
+                                    ("is_qf", lambda: env.qfo, lambda w: env.qfo.is_qf(g)),
+                                    ("nnf", lambda: rw.NNFizer(env), lambda w: w.convert(g)),
+                                    ("prenex", lambda: rw.PrenexNormalizer(env), lambda w: w.normalize(g))):
+                    w = mk()
+                    cnt = Counter(w)
+                    res = timed(lambda: fn(w))
+                    scale_event("%s:%s/atom" % (opn, label), n + 2, len(cnt.calls) if res == "ok" else 0, res, K=2, slack=8,
+                                exp=len(cnt.exps) if res == "ok" else 0, edges=n_edges + 2)
             if fam_name.startswith("bool"):
                 for opn, mk, fn in (("nnf", lambda: rw.NNFizer(env), lambda w: w.convert(f)),
                                     ("aig", lambda: rw.AIGer(env), lambda w: w.convert(f)),
